@@ -73,6 +73,17 @@ def run(ctx):
                 p.pop("maxtime", None)
                 p.pop("clockq", None)
                 ps.append(p)
+        # the stop raised by exactly the evaluation that also exhausts maxeval: FORCED_STOP must win
+        for nm in problems.ALL:
+            for k in ([2, 3, 4, 5, 6, 8, 11, 16, 23] if ctx.thorough else [2, 3, 5, 8]):
+                p = problems.gen_problem(rng, A, alg_name=nm, maxeval=k, with_constraints=False)
+                p["stopat"] = k
+                p["runs"] = 2
+                p["reseed"] = 1
+                p.pop("maxtime", None)
+                p.pop("clockq", None)
+                p.pop("stopval", None)
+                ps.append(p)
         import os
         env = dict(os.environ)
         env["HRUN_TIMEOUT"] = "10"
